@@ -17,7 +17,7 @@
   Go maps are modelled as association lists; where the code iterates over a map and stops
   at the first hit (`Authenticate` over CA clients) the model returns *every* possible
   outcome (`handle : … → List Outcome`, one per client the iteration could stop at).
-  Policy (OPA) mode is not modelled.  Core Lean only.
+  Policy (OPA) mode: Relic.Model.AuthzPolicy.  Core Lean only.
 -/
 import Relic.Base.Bytes
 import Relic.Model.RealIP
